@@ -17,6 +17,7 @@ Go strings are bytes; all names here are ASCII (the driver rejects bytes ≥ 0x8
 `strings.ToLower` / `strings.EqualFold` are their ASCII restrictions.
 -/
 import CaddyModel.Util.Hex
+import CaddyModel.Gen.Consts
 
 namespace CaddyModel.C19
 
@@ -151,7 +152,13 @@ def indexPolicies (live : Bool) : Index → List (Nat × Policy) → Index
   | m, [] => m
   | m, v :: ps => indexPolicies live (indexMatchers live v m v.2.matchers) ps
 
-def sniIndexThreshold : Nat := 30
+/-- `len(cp) > 30`: the constant is REGENERATED from connpolicy.go on every run (Gen/Consts.lean,
+    tools/extract); 30 only if the extractor cannot find the comparison. Nothing below depends on
+    its value. -/
+def sniIndexThreshold : Nat :=
+  match Gen.sniIndexThreshold with
+  | some n => n
+  | none => 30
 
 /-- the map built once by `TLSConfig` -/
 def buildIndex (live : Bool) (ps : List Policy) : Index :=
